@@ -518,6 +518,9 @@ fn simplify_logic_nary(exps: &[Exp], is_and: bool) -> Exp {
 /// or a negation of a leaf, which are unambiguous on their own.
 fn logic_operand_to_string(exp: &Exp) -> String {
     match exp {
+        // the type checker only takes boolean literals as logic operands
+        Exp::Number(value) if *value == 1.0 => "true".to_string(),
+        Exp::Number(value) if *value == 0.0 => "false".to_string(),
         exp if exp.is_leaf() => exp.to_string(),
         Exp::Not(inner) if inner.is_leaf() => exp.to_string(),
         exp => format!("({})", exp),
@@ -541,7 +544,9 @@ impl fmt::Display for Exp {
                 .collect::<Vec<_>>()
                 .join(" or "),
             Exp::Not(exp) => {
-                if exp.is_leaf() && !is_negative_number(exp) {
+                if matches!(&**exp, Exp::Number(value) if *value == 0.0 || *value == 1.0) {
+                    format!("not {}", logic_operand_to_string(exp))
+                } else if exp.is_leaf() && !is_negative_number(exp) {
                     format!("not {}", exp)
                 } else {
                     format!("not ({})", exp)
